@@ -771,6 +771,15 @@ func runInterp(o *Options, prop string, prof *Profile, quickN, thoroughN int, co
 				What:   fmt.Sprintf("the tree the real parser builds for %q is not the compiled AST", vc.Src),
 				Replay: map[string]any{"template": vc.Src, "keep_fmt": vc.KeepFmt, "includes": vc.Meta, "seed": o.Seed, "tier": o.Tier}})
 		}
+		if vc.PMVerdict != "" {
+			res.Hist("parser-model:" + vc.PMVerdict)
+			if vc.PMVerdict != "PMOk" {
+				res.Mismatches++
+				res.AddViolation(&Violation{Kind: "no-failing-input-found", Class: "parser-model", Lemma: "parser correspondence: Model/Parser.v over the regenerated expressions vs Parse + VerifTree",
+					What:   fmt.Sprintf("the parser model (%s) and the real parser disagree on %q or on a template it includes", vc.PMVerdict, vc.Src),
+					Replay: map[string]any{"template": vc.Src, "keep_fmt": vc.KeepFmt, "includes": vc.Meta, "verdict": vc.PMVerdict, "seed": o.Seed, "tier": o.Tier}})
+			}
+		}
 		// the reference semantics on the generator's AST decides the property on the real output
 		res.Hist("spec:" + strings.Fields(vc.SpecVerdict)[0])
 		if strings.HasPrefix(vc.SpecVerdict, "bad") {
